@@ -63,6 +63,8 @@ type filterWindow struct {
 	hadReserve       bool // an unowned IP was stored under the app/pool prefix at every step of the window
 	tookReserved     bool // the pod was given one of those reserved IPs during this attempt
 	tookIP           string
+	maxReplicas      int  // largest replica count (API truth or lister view) seen during the window
+	heldOwn          bool // the pod's identity already held an IP when the filter call started: the call had nothing to decide
 	gateClosed       bool // the deployment's pods held >= replicas IPs at every step of the window
 	hadIPAfterFilter bool // the identity held an IP when the filter call returned
 	closed           bool
